@@ -31,6 +31,15 @@ import (
 type c17plan struct {
 	kinds map[string][]string // request kind -> cyclic list of decisions
 	pos   map[string]int
+	chunk int // block request size: hash-list faults are placed where one fetch task ends and the next begins
+}
+
+// boundary: an index inside hs at which a fetch task begins (a multiple of the chunk size), or the middle.
+func (p *c17plan) boundary(n int) int {
+	if p.chunk > 0 && n > p.chunk {
+		return ((n - 1) / p.chunk / 2 * p.chunk) + p.chunk
+	}
+	return n / 2
 }
 
 func (p *c17plan) next(kind string) string {
@@ -137,6 +146,36 @@ func c17Session(t *rapid.T, s *Syncer, req *StubRequester, local, remote, foreig
 			switch d {
 			case "err":
 				rsp.Err = fmt.Errorf("injected")
+			case "hole":
+				// a hash list that skips one block in the middle
+				if len(hs) > 2 {
+					i := plan.boundary(len(hs))
+					if i >= len(hs) {
+						i = len(hs) / 2
+					}
+					// (the count stays what was asked for: the list goes one block further instead)
+					if next := int(m.PrevInfo.No) + len(hs) + 1; next <= remote.Best {
+						c := append(append([]message.BlockHash{}, hs[:i]...), hs[i+1:]...)
+						c = append(c, message.BlockHash(remote.Hashes[next]))
+						rsp.Hashes, rsp.Count = c, uint64(len(c))
+					}
+				}
+			case "fork-switch":
+				// from the middle on, the hashes of another chain's blocks at the same heights
+				if len(hs) > 1 {
+					i := plan.boundary(len(hs))
+					if i >= len(hs) {
+						i = len(hs) / 2
+					}
+					c := append([]message.BlockHash{}, hs[:i]...)
+					for k := i; k < len(hs); k++ {
+						no := int(m.PrevInfo.No) + 1 + k
+						if no <= foreign.Best {
+							c = append(c, message.BlockHash(foreign.Hashes[no]))
+						}
+					}
+					rsp.Hashes, rsp.Count = c, uint64(len(c))
+				}
 			case "short":
 				if len(hs) > 1 {
 					rsp.Hashes, rsp.Count = hs[:len(hs)-1], uint64(len(hs)-1)
@@ -149,6 +188,21 @@ func c17Session(t *rapid.T, s *Syncer, req *StubRequester, local, remote, foreig
 			d := plan.next("blocks")
 			run.faults["blocks:"+d]++
 			blocks, err := remote.GetBlocks(m.Hashes)
+			if err != nil {
+				// the peer serves whatever blocks it has, also those of another branch
+				blocks, err = nil, nil
+				for _, h := range m.Hashes {
+					b, e := remote.GetBlock(h)
+					if e != nil {
+						b, e = foreign.GetBlock(h)
+					}
+					if e != nil {
+						err = e
+						break
+					}
+					blocks = append(blocks, b)
+				}
+			}
 			rsp := &message.GetBlockChunksRsp{Seq: m.Seq, ToWhom: m.ToWhom, Blocks: blocks, Err: err}
 			switch d {
 			case "err":
@@ -263,7 +317,7 @@ func TestC17Sync(t *testing.T) {
 			useFullScanOnly:  rapid.Bool().Draw(t, "fullScanOnly"),
 			debugContext:     &SyncerDebug{expAncestor: -2, logBadPeers: map[int]bool{}},
 		}
-		plan := &c17plan{kinds: map[string][]string{}, pos: map[string]int{}}
+		plan := &c17plan{kinds: map[string][]string{}, pos: map[string]int{}, chunk: cfg.maxBlockReqSize}
 		faulty := rapid.IntRange(0, 3).Draw(t, "faultLevel")
 		drawList := func(name string, opts []string) {
 			n := rapid.IntRange(1, 6).Draw(t, name+"N")
@@ -285,7 +339,7 @@ func TestC17Sync(t *testing.T) {
 		} else {
 			drawList("ancestor", []string{"stale"})
 			drawList("hashbyno", []string{"err"})
-			drawList("hashes", []string{"err", "short", "stale"})
+			drawList("hashes", []string{"err", "short", "stale", "hole", "fork-switch"})
 			drawList("blocks", []string{"err", "short", "extra", "unlinked", "foreign", "never", "late", "late", "stale"})
 			drawList("addblock", []string{"err"})
 		}
@@ -294,7 +348,7 @@ func TestC17Sync(t *testing.T) {
 		// progress shows as a stall and not as a "timeout" error a few hundred milliseconds later
 		dfltTimeout = 120 * time.Second
 		for _, d := range plan.kinds["hashes"] {
-			if d == "err" || d == "short" {
+			if d == "err" || d == "short" || d == "hole" || d == "fork-switch" {
 				dfltTimeout = 1500 * time.Millisecond
 			}
 		}
